@@ -278,6 +278,8 @@ EXPR_WRAPPERS = {
     ('built_in_print.rs::format_for_print_pred', 'out += split[i];'): 'str_append_str(&mut out, split[i]);',
     ('built_in_print.rs::next_solution_print', 'format!("{}", ground_term)'): 'disp_term(ground_term)',
     ('built_in_print.rs::next_solution_print', 'format!("{}", term)'): 'disp_term(&term)',
+    ('solutions.rs::format_solution', 'out += &format!("{} = {}", name, r_terms[i]);'): 'str_append_binding(&mut out, name, &r_terms[i], false);',
+    ('solutions.rs::format_solution', 'out += &format!(", {} = {}", name, r_terms[i]);'): 'str_append_binding(&mut out, name, &r_terms[i], true);',
     # Vec index: panics when `=` has fewer than two operands (the parsers build two); a panic is no return
     ('built_in_predicates.rs::next_solution_bip', '&terms[0]'): 'vec_at(terms, 0)',
     ('built_in_predicates.rs::next_solution_bip', '&terms[1]'): 'vec_at(terms, 1)',
